@@ -388,3 +388,13 @@ def main(argv=None):
             print("harness error: " + e)
         return 2
     return 0
+
+
+def exc_signature(exc, prefix=""):
+    """(type, innermost frame inside the aioquic package) - no line numbers."""
+    tb = traceback.extract_tb(exc.__traceback__)
+    fn = "?"
+    for fr in tb:
+        if "/aioquic/" in fr.filename:
+            fn = os.path.basename(fr.filename).replace(".py", "") + "." + fr.name
+    return "%s%s-in-%s" % (prefix, type(exc).__name__, fn)
